@@ -83,12 +83,26 @@ type c04Err int
 
 func (e c04Err) Error() string { return fmt.Sprintf("e%d", int(e)) }
 
+// c04PtrErr: an error type with a pointer receiver; a nil *c04PtrErr in an error interface is the classic typed-nil error
+// (err != nil although the pointer is nil).  Work `ret:<r>:999` returns it; the wrapper must hand it on untouched.
+type c04PtrErr struct{}
+
+func (e *c04PtrErr) Error() string { return "typed-nil" }
+
+const c04TypedNil = 999
+
 func c04PanicTok(p any) string {
 	s := fmt.Sprint(p)
 	f := strings.Fields(s)
 	if len(f) > 0 {
 		if n, err := strconv.Atoi(f[0]); err == nil {
 			return fmt.Sprintf("panic:%d", n)
+		}
+		// a panic with an ERROR value (c04Err): printed as e<n>
+		if strings.HasPrefix(f[0], "e") {
+			if n, err := strconv.Atoi(f[0][1:]); err == nil {
+				return fmt.Sprintf("panic:%d", n)
+			}
 		}
 	}
 	if len(s) > 40 {
@@ -107,6 +121,9 @@ func c04Out(wrapper string, resp any, err error) string {
 	case err == nil:
 		return fmt.Sprintf("result:%d:0", r)
 	default:
+		if pe, ok := err.(*c04PtrErr); ok && pe == nil {
+			return fmt.Sprintf("result:%d:%d", r, c04TypedNil)
+		}
 		var ce c04Err
 		if errors.As(err, &ce) {
 			return fmt.Sprintf("result:%d:%d", r, int(ce))
@@ -153,9 +170,16 @@ func c04ParseWork(s string) c04Work {
 		return c04Work{"panic", verifh.Atoi(p[1]), 0}
 	case "never":
 		return c04Work{kind: "never"}
+	case "goexit":
+		return c04Work{kind: "goexit"}
 	}
 	panic("bad work " + s)
 }
+
+// neverReturns: the wrapper never hears from this work (it blocks for good, or its goroutine exits with runtime.Goexit)
+func (w c04Work) neverReturns() bool { return w.kind == "never" || w.kind == "goexit" }
+
+func c04NeverTok(work string) bool { return work == "never" || work == "goexit" }
 
 func (w c04Work) run() (any, error) {
 	switch w.kind {
@@ -164,12 +188,21 @@ func (w c04Work) run() (any, error) {
 		if w.r != 0 {
 			resp = w.r
 		}
+		if w.e == c04TypedNil {
+			var pe *c04PtrErr
+			return resp, pe
+		}
 		if w.e != 0 {
 			return resp, c04Err(w.e)
 		}
 		return resp, nil
 	case "panic":
+		if w.r >= 100 {
+			panic(c04Err(w.r)) // a panic with an error value
+		}
 		panic(w.r)
+	case "goexit":
+		runtime.Goexit() // the worker goroutine ends without a result and without a panic
 	}
 	panic("never")
 }
@@ -327,7 +360,7 @@ func c04SelIcMid(op []string, never chan struct{}, ic grpc.UnaryServerIntercepto
 		}
 		o, got := c04Wait(out, 15*time.Millisecond, "blocked")
 		close(gate)
-		if got || work.kind == "never" {
+		if got || work.neverReturns() {
 			return "out=" + o
 		}
 		o2, _ := c04Wait(out, c04StuckBound(), "stuck")
@@ -335,7 +368,7 @@ func c04SelIcMid(op []string, never chan struct{}, ic grpc.UnaryServerIntercepto
 	}
 	// the work ends first
 	close(gate)
-	if work.kind == "never" {
+	if work.neverReturns() {
 		o, _ := c04Wait(out, 15*time.Millisecond, "blocked")
 		fire()
 		if effective {
@@ -391,7 +424,7 @@ func c04Fxt(op []string, never chan struct{}) string {
 	}
 	o, got := c04Wait(out, 15*time.Millisecond, "blocked")
 	close(gate)
-	if got || work.kind == "never" {
+	if got || work.neverReturns() {
 		return "out=" + o
 	}
 	o2, _ := c04Wait(out, c04StuckBound(), "stuck")
@@ -576,11 +609,17 @@ func c04ClassifyMulti(d time.Time, ok, hasParent bool, pd, t0, t1 time.Time, can
 }
 
 func c04GenWork(r *verifh.Rng) string {
-	switch x := r.Intn(10); {
-	case x < 6:
+	switch x := r.Intn(20); {
+	case x < 10:
 		return fmt.Sprintf("ret:%d:%d", r.Intn(4), r.Pick(0, 0, 1, 2))
-	case x < 8:
+	case x < 12:
+		return fmt.Sprintf("ret:%d:%d", r.Intn(4), c04TypedNil) // typed-nil error value
+	case x < 14:
 		return fmt.Sprintf("panic:%d", r.Range(1, 9))
+	case x < 16:
+		return fmt.Sprintf("panic:%d", r.Range(100, 109)) // panic with an error value
+	case x < 18:
+		return "goexit"
 	default:
 		return "never"
 	}
@@ -599,7 +638,7 @@ func c04Gen(r *verifh.Rng) []verifh.Section {
 			}
 			at := r.PickS("before", "after")
 			work := c04GenWork(r)
-			if kind == "none" && work == "never" {
+			if kind == "none" && c04NeverTok(work) {
 				work = "ret:1:0"
 			}
 			if kind == "timer" {
@@ -616,7 +655,7 @@ func c04Gen(r *verifh.Rng) []verifh.Section {
 				}
 				if nopts == 0 && kind != "timer" {
 					kind = "none"
-					if work == "never" {
+					if c04NeverTok(work) {
 						work = "ret:2:1"
 					}
 				}
@@ -717,7 +756,7 @@ func c04Gen(r *verifh.Rng) []verifh.Section {
 				continue
 			}
 			kind := r.PickS("none", "deadline", "cancel", "cancel")
-			if kind == "none" && work == "never" {
+			if kind == "none" && c04NeverTok(work) {
 				work = "ret:3:0"
 			}
 			ops = append(ops, fmt.Sprintf("tsel %d %d %s %s %s %s", tt.dflt, method, kind, r.PickS("before", "after", "after"), work, tt.tbl))
@@ -735,7 +774,7 @@ func c04Gen(r *verifh.Rng) []verifh.Section {
 				fire = true
 			}
 			work := c04GenWork(r)
-			if !fire && work == "never" && r.Bool() {
+			if !fire && c04NeverTok(work) && r.Bool() {
 				work = "ret:0:2"
 			}
 			fops = append(fops, strings.TrimSpace(fmt.Sprintf("fxt %s %d %s %s", map[bool]string{true: "fire", false: "hold"}[fire], timeout, work, strings.Join(ps, " "))))
@@ -752,7 +791,7 @@ func c04Gen(r *verifh.Rng) []verifh.Section {
 		}
 		kindB := r.PickS("none", "deadline", "cancel")
 		workB := c04GenWork(r)
-		if kindB == "none" && workB == "never" {
+		if kindB == "none" && c04NeverTok(workB) {
 			workB = "ret:1:0"
 		}
 		pops = append(pops, fmt.Sprintf("pairsel %s %s %s %s %s", r.PickS("deadline", "cancel"), workA, kindB, r.PickS("before", "after", "after"), workB))
